@@ -60,6 +60,9 @@ WrapKinds == {"range", "rangekv", "rangeelse", "if", "ifelse", "iflet", "ifletel
 CoreKinds == {"range", "rangekv", "iflet", "let", "ycont", "ycontp", "yctx", "ybody", "ybodyp",
               "includectx", "exec", "tryin", "catchbody"}
 
+\* wrappers without failures of their own (scoping programs)
+ScopeKinds == WrapKinds \ {"catchbody"}
+
 Wrap(kind, i, r) ==
   LET id(x) == kind \o L(i) \o x
       m  == r.main
@@ -74,11 +77,14 @@ Wrap(kind, i, r) ==
     [] kind = "ifletelse" -> Res(<<IfLetElse(id(""), xn, Lit("v" \o L(i)), Lit("false"), <<T(id("never"))>>, m)>>, r.ts, r.bl)
     [] kind = "let"       -> Res(<<LetS(id(""), xn, Lit("v" \o L(i)))>> \o m, r.ts, r.bl)
     [] kind = "ycont"     -> Res(<<YieldC(id(""), "bw" \o L(i), <<>>, NoE, m)>>, r.ts,
-                                 r.bl \o <<BlockS(id("d"), "bw" \o L(i), <<>>, NoE, <<T(id("a")), YContent(id("y")), T(id("b"))>>)>>)
+                                 r.bl \o <<BlockS(id("d"), "bw" \o L(i), <<>>, NoE,
+                                                   <<LetS(id("l"), "s", Lit("bl" \o L(i))), LetS(id("l2"), xn, Lit("bx" \o L(i))), T(id("a")),
+                                                     YContent(id("y")), P(id("b"), Var("s"))>>)>>)
     [] kind = "ycontp"    -> Res(<<YieldC(id(""), "bp" \o L(i), <<Par("p", Lit("pv" \o L(i)))>>, NoE, m)>>, r.ts,
                                  r.bl \o <<BlockS(id("d"), "bp" \o L(i), <<Par("p", Lit("pd"))>>, NoE, <<P(id("a"), Var("p")), YContent(id("y")), T(id("b"))>>)>>)
     [] kind = "yctx"      -> Res(<<YieldC(id(""), "bc" \o L(i), <<>>, Lit("c" \o L(i)), m)>>, r.ts,
-                                 r.bl \o <<BlockS(id("d"), "bc" \o L(i), <<>>, NoE, <<P(id("a"), Ctx), YContentCx(id("y"), Lit("cc" \o L(i))), T(id("b"))>>)>>)
+                                 r.bl \o <<BlockS(id("d"), "bc" \o L(i), <<>>, NoE,
+                                                   <<P(id("a"), Ctx), LetS(id("l"), "s", Lit("bl" \o L(i))), YContentCx(id("y"), Lit("cc" \o L(i))), P(id("b"), Var("s"))>>)>>)
     [] kind = "ybody"     -> Res(<<YieldC(id(""), "bb" \o L(i), <<>>, NoE, <<T(id("cc"))>>)>>, r.ts,
                                  r.bl \o <<BlockS(id("d"), "bb" \o L(i), <<>>, NoE, <<YContent(id("y"))>> \o m)>>)
     [] kind = "ybodyp"    -> Res(<<YieldC(id(""), "bq" \o L(i), <<Par("p", Lit("pv" \o L(i)))>>, Lit("c" \o L(i)), <<T(id("cc"))>>)>>, r.ts,
